@@ -27,6 +27,9 @@ class WireManagerBase(abc.ABC):
         for wire in self.wires:
             wire.grading.length = wire.length
 
+    def reset(self) -> None:
+        """Forget whatever a previous grade() took from neighbours"""
+
     @abc.abstractmethod
     def grade(self) -> None:
         """Convert data from user or neighbour to Grading objects on wires"""
@@ -131,6 +134,14 @@ class WirePropagateManager(WireManagerBase):
 
     def update(self):
         super().update()
+
+    def reset(self) -> None:
+        # chops and gradings were copied from neighbours
+        # and calculated with lengths of that time
+        self.chops = []
+
+        for wire in self.wires:
+            wire.grading = Grading(wire.length)
 
     @property
     def is_defined(self) -> bool:
